@@ -1,5 +1,6 @@
 import Iavl.Lemmas.V2EvictCorrect
 import Iavl.Lemmas.V2Touch
+import Iavl.Lemmas.V2Saved
 import Iavl.Lemmas.GetRank
 import Iavl.Generated.SrcC19Ok
 /-
@@ -67,6 +68,27 @@ theorem any_sequence_of_touches_is_invisible [Ord K] (st : Nat → Option (Node 
   have hr : e.resolve st = some t :=
     (resolve_touches st ref touched _ hb).1.trans (resolve_evict st ref policy t d hs)
   exact ⟨hr, fun key => get_of_resolve st key e hr, fun s en asc incl => range_of_resolve st s en asc incl e hr⟩
+
+/-- **write, then evict**: where the hypothesis comes from. A checkpoint writes every node of the tree under its node
+    key (`writeAll`, over any earlier store); if the node keys are unique within the tree - what the per-version
+    `leafSequence` / `branchSequence` allocation is for - then after any eviction and any lookups every read answers
+    as the tree does -/
+theorem write_then_evict_is_invisible [Ord K] (st : Nat → Option (Node K V)) (ref : Node K V → Nat)
+    (policy : Nat → Node K V → Bool) (d : Nat) (t : Node K V) (hu : UniqueKeys ref t) (touched : List K) :
+    let st' := writeAll st ref t
+    let e := touched.foldl (fun e k => e.touch st' ref k) (evict policy ref d t)
+    (∀ key, e.get st' key = some (t.get key)) ∧
+    (∀ s en asc incl, e.range st' s en asc incl = some (t.range s en asc incl)) :=
+  (any_sequence_of_touches_is_invisible (writeAll st ref t) ref policy d t (saved_writeAll st ref t hu) touched).2
+
+/-- ... and uniqueness is needed: two leaves allocated the same node key, both evicted - the lookup of the second
+    answers with the first (a node key handed out twice / a sequence counter not advanced) -/
+theorem colliding_node_keys_corrupt_reads :
+    let t : Node Bytes Bytes := .inner [98] 1 2 (some 1) (.leaf [97] [1] (some 1)) (.leaf [98] [2] (some 1))
+    let ref : Node Bytes Bytes → Nat := fun n => match n with | .leaf .. => 5 | .inner .. => 1
+    (evict (v2Policy 1 false 0) ref 0 t).get (writeAll (fun _ => none) ref t) [98] = some (2, none) ∧
+    t.get [98] = (1, some [2]) := by
+  decide
 
 /-- the hypothesis is needed: evicting a node that was never written loses it (the failure mode of
     returning a dirty leaf to the pool / evicting before the write) - the fetch fails instead of answering -/
